@@ -187,7 +187,8 @@ def decimal_arg(
 
         try:
             return Decimal(val)
-        except ValueError as err:
+        except (ValueError, ArithmeticError) as err:
+            # Decimal() raises decimal.InvalidOperation, not ValueError
             if default is not None:
                 return default
             raise FilterArgumentError(
